@@ -8,8 +8,9 @@ Two implementations:
 * `Ref`  — readable: the state is a list of 25 lanes (lane (x,y) at index x+5y), the step mappings θ ρ π χ ι are
            separate functions, the rotation offsets are derived by the (t+1)(t+2)/2 walk and the round constants by the
            LFSR of FIPS 202 Algorithm 5; the sponge works on byte lists.
-* `Fast` — the whole 1600-bit state is ONE `Nat` (lane i at bits [64i, 64i+64)), one round is a straight line of
-           `let`s over `Nat` shifts/masks with literal tables; the message is absorbed as one little-endian `Nat`.
+* `Fast` — the whole 1600-bit state is ONE `Nat` (lane i at bits [64i, 64i+64)); θ and χ are a dozen whole-state
+           shift/mask/xor operations each, ρ/π a fold over a literal table; the message is absorbed as one
+           little-endian `Nat`.
            Every operation is a GMP-accelerated `Nat` primitive of the Lean kernel, so `decide +kernel` evaluates a
            single-block hash in a few hundredths of a second.  This is the version the table theorems evaluate.
 
@@ -154,10 +155,29 @@ end Ref
 /-! ## (b) packed version -/
 namespace Fast
 
-/-- lane `i` of the packed state -/
-@[inline] def lane (s i : Nat) : Nat := (s >>> (64 * i)) &&& M64
+/-! Layout: lane (x, y) occupies bits [64(x+5y), 64(x+5y)+64); plane y (five lanes) bits [320y, 320y+320).
+θ and χ act on all lanes at once through shifted copies of the state and lane masks; ρ/π moves one lane at a time. -/
 
-@[inline] def rotl (v n : Nat) : Nat := ((v <<< n) ||| (v >>> (64 - n))) &&& M64
+/-- one plane -/
+def M320 : Nat := 2 ^ 320 - 1
+/-- the whole state -/
+def ALL : Nat := 2 ^ 1600 - 1
+/-- `p * REP5` replicates a plane `p < 2^320` into all five planes -/
+def REP5 : Nat := 1 + 2 ^ 320 + 2 ^ 640 + 2 ^ 960 + 2 ^ 1280
+/-- bit 0 of every lane of a plane -/
+def LOW1 : Nat := 1 + 2 ^ 64 + 2 ^ 128 + 2 ^ 192 + 2 ^ 256
+/-- every bit of a plane except bit 0 of each lane -/
+def NOTLOW : Nat := M320 ^^^ LOW1
+/-- lane x = 4 of every plane -/
+def LANE4 : Nat := (M64 <<< 256) * REP5
+/-- lanes x = 0..3 of every plane -/
+def LANES0123 : Nat := (2 ^ 256 - 1) * REP5
+/-- lanes x = 0..2 of every plane -/
+def LANES012 : Nat := (2 ^ 192 - 1) * REP5
+/-- lanes x = 3..4 of every plane -/
+def LANES34 : Nat := ((2 ^ 128 - 1) <<< 192) * REP5
+/-- `v * DBL = v‖v` for a lane `v < 2^64`; a rotation is a window of the doubled lane -/
+def DBL : Nat := 2 ^ 64 + 1
 
 /-- the 24 round constants (literal; `Ref.roundConstant` derives them, see `Props/KeccakAgree`) -/
 def RC : List Nat := [
@@ -168,76 +188,36 @@ def RC : List Nat := [
   0x8000000000008002, 0x8000000000000080, 0x000000000000800A, 0x800000008000000A,
   0x8000000080008081, 0x8000000000008080, 0x0000000080000001, 0x8000000080008008]
 
-/-- one round of Keccak-f[1600] on the packed state.  `aK` = lane K = A[K%5, K/5]. -/
-def round (s rc : Nat) : Nat :=
-  let a0 := lane s 0;   let a1 := lane s 1;   let a2 := lane s 2;   let a3 := lane s 3;   let a4 := lane s 4
-  let a5 := lane s 5;   let a6 := lane s 6;   let a7 := lane s 7;   let a8 := lane s 8;   let a9 := lane s 9
-  let a10 := lane s 10; let a11 := lane s 11; let a12 := lane s 12; let a13 := lane s 13; let a14 := lane s 14
-  let a15 := lane s 15; let a16 := lane s 16; let a17 := lane s 17; let a18 := lane s 18; let a19 := lane s 19
-  let a20 := lane s 20; let a21 := lane s 21; let a22 := lane s 22; let a23 := lane s 23; let a24 := lane s 24
-  -- θ
-  let c0 := a0 ^^^ a5 ^^^ a10 ^^^ a15 ^^^ a20
-  let c1 := a1 ^^^ a6 ^^^ a11 ^^^ a16 ^^^ a21
-  let c2 := a2 ^^^ a7 ^^^ a12 ^^^ a17 ^^^ a22
-  let c3 := a3 ^^^ a8 ^^^ a13 ^^^ a18 ^^^ a23
-  let c4 := a4 ^^^ a9 ^^^ a14 ^^^ a19 ^^^ a24
-  let d0 := c4 ^^^ rotl c1 1
-  let d1 := c0 ^^^ rotl c2 1
-  let d2 := c1 ^^^ rotl c3 1
-  let d3 := c2 ^^^ rotl c4 1
-  let d4 := c3 ^^^ rotl c0 1
-  -- ρ and π: bK = B[K%5, K/5] = rot(A[x,y] ^ D[x], r[x,y]) with (K%5, K/5) = (y, 2x+3y)
-  let b0  := a0 ^^^ d0
-  let b1  := rotl (a6  ^^^ d1) 44
-  let b2  := rotl (a12 ^^^ d2) 43
-  let b3  := rotl (a18 ^^^ d3) 21
-  let b4  := rotl (a24 ^^^ d4) 14
-  let b5  := rotl (a3  ^^^ d3) 28
-  let b6  := rotl (a9  ^^^ d4) 20
-  let b7  := rotl (a10 ^^^ d0) 3
-  let b8  := rotl (a16 ^^^ d1) 45
-  let b9  := rotl (a22 ^^^ d2) 61
-  let b10 := rotl (a1  ^^^ d1) 1
-  let b11 := rotl (a7  ^^^ d2) 6
-  let b12 := rotl (a13 ^^^ d3) 25
-  let b13 := rotl (a19 ^^^ d4) 8
-  let b14 := rotl (a20 ^^^ d0) 18
-  let b15 := rotl (a4  ^^^ d4) 27
-  let b16 := rotl (a5  ^^^ d0) 36
-  let b17 := rotl (a11 ^^^ d1) 10
-  let b18 := rotl (a17 ^^^ d2) 15
-  let b19 := rotl (a23 ^^^ d3) 56
-  let b20 := rotl (a2  ^^^ d2) 62
-  let b21 := rotl (a8  ^^^ d3) 55
-  let b22 := rotl (a14 ^^^ d4) 39
-  let b23 := rotl (a15 ^^^ d0) 41
-  let b24 := rotl (a21 ^^^ d1) 2
-  -- χ (and ι on lane 0), repacked
-  (b0 ^^^ ((b1 ^^^ M64) &&& b2) ^^^ rc)
-  ||| ((b1  ^^^ ((b2  ^^^ M64) &&& b3 )) <<< 64)
-  ||| ((b2  ^^^ ((b3  ^^^ M64) &&& b4 )) <<< 128)
-  ||| ((b3  ^^^ ((b4  ^^^ M64) &&& b0 )) <<< 192)
-  ||| ((b4  ^^^ ((b0  ^^^ M64) &&& b1 )) <<< 256)
-  ||| ((b5  ^^^ ((b6  ^^^ M64) &&& b7 )) <<< 320)
-  ||| ((b6  ^^^ ((b7  ^^^ M64) &&& b8 )) <<< 384)
-  ||| ((b7  ^^^ ((b8  ^^^ M64) &&& b9 )) <<< 448)
-  ||| ((b8  ^^^ ((b9  ^^^ M64) &&& b5 )) <<< 512)
-  ||| ((b9  ^^^ ((b5  ^^^ M64) &&& b6 )) <<< 576)
-  ||| ((b10 ^^^ ((b11 ^^^ M64) &&& b12)) <<< 640)
-  ||| ((b11 ^^^ ((b12 ^^^ M64) &&& b13)) <<< 704)
-  ||| ((b12 ^^^ ((b13 ^^^ M64) &&& b14)) <<< 768)
-  ||| ((b13 ^^^ ((b14 ^^^ M64) &&& b10)) <<< 832)
-  ||| ((b14 ^^^ ((b10 ^^^ M64) &&& b11)) <<< 896)
-  ||| ((b15 ^^^ ((b16 ^^^ M64) &&& b17)) <<< 960)
-  ||| ((b16 ^^^ ((b17 ^^^ M64) &&& b18)) <<< 1024)
-  ||| ((b17 ^^^ ((b18 ^^^ M64) &&& b19)) <<< 1088)
-  ||| ((b18 ^^^ ((b19 ^^^ M64) &&& b15)) <<< 1152)
-  ||| ((b19 ^^^ ((b15 ^^^ M64) &&& b16)) <<< 1216)
-  ||| ((b20 ^^^ ((b21 ^^^ M64) &&& b22)) <<< 1280)
-  ||| ((b21 ^^^ ((b22 ^^^ M64) &&& b23)) <<< 1344)
-  ||| ((b22 ^^^ ((b23 ^^^ M64) &&& b24)) <<< 1408)
-  ||| ((b23 ^^^ ((b24 ^^^ M64) &&& b20)) <<< 1472)
-  ||| ((b24 ^^^ ((b20 ^^^ M64) &&& b21)) <<< 1536)
+/-- ρ/π as a table (source lane x+5y, rotation r[x,y], destination lane y + 5·((2x+3y) mod 5));
+`Ref.rhoOffset` derives the rotations, see `Props/KeccakAgree` -/
+def RHOPI : List (Nat × Nat × Nat) := [
+  (0, 0, 0),    (6, 44, 1),   (12, 43, 2),  (18, 21, 3),  (24, 14, 4),
+  (3, 28, 5),   (9, 20, 6),   (10, 3, 7),   (16, 45, 8),  (22, 61, 9),
+  (1, 1, 10),   (7, 6, 11),   (13, 25, 12), (19, 8, 13),  (20, 18, 14),
+  (4, 27, 15),  (5, 36, 16),  (11, 10, 17), (17, 15, 18), (23, 56, 19),
+  (2, 62, 20),  (8, 55, 21),  (14, 39, 22), (15, 41, 23), (21, 2, 24)]
+
+/-- θ: column parities `c` (one plane), D[x] = C[x-1] ⊕ rot(C[x+1], 1) as lane-rotated copies of `c`, added to every plane -/
+def theta (s : Nat) : Nat :=
+  let c := (s ^^^ (s >>> 320) ^^^ (s >>> 640) ^^^ (s >>> 960) ^^^ (s >>> 1280)) &&& M320
+  let cm1 := ((c <<< 64) &&& M320) ||| (c >>> 256)          -- lane x holds C[x-1]
+  let cp1 := ((c >>> 64) ||| (c <<< 256)) &&& M320          -- lane x holds C[x+1]
+  let d := cm1 ^^^ (((cp1 <<< 1) &&& NOTLOW) ||| ((cp1 >>> 63) &&& LOW1))
+  s ^^^ (d * REP5)
+
+/-- ρ and π: every destination lane is a rotated source lane -/
+def rhoPi (s : Nat) : Nat :=
+  RHOPI.foldl (fun acc e =>
+    acc ||| ((((((s >>> (64 * e.1)) &&& M64) * DBL) >>> (64 - e.2.1)) &&& M64) <<< (64 * e.2.2))) 0
+
+/-- χ: A[x,y] = B[x,y] ⊕ (¬B[x+1,y] ∧ B[x+2,y]); `b1`, `b2` hold B[x+1,y], B[x+2,y] in lane (x,y) -/
+def chi (b : Nat) : Nat :=
+  let b1 := ((b >>> 64) &&& LANES0123) ||| ((b <<< 256) &&& LANE4)
+  let b2 := ((b >>> 128) &&& LANES012) ||| ((b <<< 192) &&& LANES34)
+  b ^^^ ((b1 ^^^ ALL) &&& b2)
+
+/-- one round of Keccak-f[1600] on the packed state (ι = xor of the round constant into lane 0) -/
+def round (s rc : Nat) : Nat := chi (rhoPi (theta s)) ^^^ rc
 
 def keccakF (s : Nat) : Nat := RC.foldl round s
 
